@@ -62,8 +62,16 @@ def handleQ (qf : QFmt) (toks : List String) : Option (Option String) :=
     | none => some none
     | some s => some (some (expectQ qf s))
 
-def handle (ws : List String) : Option (Option String) :=
+/-- C19: a sample must be a real posit in [0,1): pattern below the pattern of 1.0 (predicate-style: the expected string is
+the implementation's own result when the predicate holds) -/
+def sampleOk (f : Fmt) (res : String) : Option (Option String) :=
+  if res != "PANIC" && hexNat res < one f then some (some res) else some (some "a-real-posit-in-[0,1)")
+
+def handle (ws : List String) (res : String) : Option (Option String) :=
   match ws with
+  | "p8" :: "sample_seed" :: _ | "p8" :: "sample_r" :: _ => sampleOk p8 res
+  | "p16" :: "sample_seed" :: _ | "p16" :: "sample_r" :: _ => sampleOk p16 res
+  | "p32" :: "sample_seed" :: _ | "p32" :: "sample_r" :: _ => sampleOk p32 res
   | "q8" :: "hist" :: toks => handleQ q8 toks
   | "q16" :: "hist" :: toks => handleQ q16 toks
   | "q32" :: "hist" :: toks => handleQ q32 toks
